@@ -330,7 +330,6 @@ def _vec_call(vs, sub):
     kw = _kwargs(sub['kw'], sub['seed'])
     if given is not None:
         kw['batch_size'] = given
-    mask_before = None if sub['mask'] is None else list(sub['mask'])
     try:
         got = vs(*inputs, **kw)
         raised = None
@@ -341,6 +340,9 @@ def _vec_call(vs, sub):
     del LOG[:]
 
     detail = {'sub': sub, 'expected_status': exp['status']}
+    handed = MASKS.get(id(vs), (None, None))[1]
+    if handed is not None and list(handed) != list(sub['mask']):
+        return 'C18:vectorize:constants-argument-mutated', dict(detail, constants_now=list(handed)), None
     if exp['status'] == REJECT:
         if raised is None:
             return 'C18:vectorize:length-mismatch-accepted', dict(detail, got=_short(got)), 'rej'
@@ -375,20 +377,24 @@ def _vec_call(vs, sub):
     if not _same(got, out):
         return 'C18:vectorize:output-mismatch', dict(detail, got=_short(got), got_dtype=str(got.dtype),
                                                        expected=_short(out), expected_dtype=str(out.dtype)), None
-    if sub['mask'] is not None and list(sub['mask']) != mask_before:
-        return 'C18:vectorize:constants-argument-mutated', detail, None
     return None, None, _h(got)
+
+
+MASKS = {}        # id(vectorised callable) -> (callable, the constants object handed to vectorize)
 
 
 def _vectorized(sub):
     mask = sub['mask']
     kw = {}
     if mask is not None:
-        kw['constants'] = tuple(mask) if sub.get('mask_as') == 'tuple' else mask
+        # a private copy: the callable under test must not be able to change the case
+        kw['constants'] = tuple(mask) if sub.get('mask_as') == 'tuple' else list(mask)
     dtype = DTYPES[sub['dtype']]
     if dtype is not None:
         kw['dtype'] = dtype
-    return _tools().vectorize(OPS[sub['ret']], **kw)
+    vs = _tools().vectorize(OPS[sub['ret']], **kw)
+    MASKS[id(vs)] = (vs, kw.get('constants'))
+    return vs
 
 
 def _subcases(case):
@@ -774,6 +780,7 @@ def run_ext(case):
     # ---- the full call
     kw, derived = _call_kwargs(case, kwv)
     seed_val = kwv['seed']
+    derived = derived and '{seed}' in toks
     if derived:
         # oracle for the value of {seed} under random_state is in section extseed; here the value is taken
         # from a second template-free observation with an equal generator
@@ -833,14 +840,16 @@ def run_extseed(case):
         second.append(int(op(random_state=gen(), meta={'index_in_batch': r, 'batch_index': 3})[0]))
         n += 1
     second.reverse()
-    # one generator object shared by the rows of a batch (as in a model run)
+    # one generator object shared by the rows of a batch (as in a model run); repeated with an equal one
     shared = gen()
     third = [int(op(random_state=shared, meta={'index_in_batch': r})[0]) for r in range(bs)]
-    n += bs
-    detail.update(first=first, second=second, shared_generator=third)
-    if first != second or first != third:
+    shared = gen()
+    fourth = [int(op(random_state=shared, meta={'index_in_batch': r})[0]) for r in range(bs)]
+    n += 2 * bs
+    detail.update(first=first, second=second, shared_generator=third, shared_generator_again=fourth)
+    if first != second or third != fourth:
         return bad('C18:external:seed-not-function-of-generator', detail)
-    if len(set(first)) != bs:
+    if len(set(first)) != bs or len(set(third)) != bs:
         return bad('C18:external:seed-equal-between-rows', detail)
     # without a row index (not vectorised): one seed, again deterministic
     a = int(op(random_state=gen())[0])
@@ -851,7 +860,8 @@ def run_extseed(case):
     key0 = int(gen().get_state()[1][0])
     formula = int(all(first[r] == ref_sub_seed(key0, r) for r in range(bs)))
     r = ok(outcome=digest(first), ext_processes=n, seed_matches_documented_sub_seed_formula=formula,
-           seed_formula_compared=1, seed_rows=bs)
+           seed_formula_compared=1, seed_rows=bs,
+           seed_derivation_leaves_generator_untouched=int(first == third))
     r.update(evals=n, distinct=n)
     return r
 
@@ -1036,14 +1046,15 @@ def run(ctx):
     if q:
         std = dict(bs=[1, 2, 3], rets=['num', 'vec2', 'dict'], kws=['none', 'meta', 'all'])
         plan = {0: dict(std, kinds=['py']), 1: dict(std, kinds=k7), 2: dict(std, kinds=k7),
-                3: dict(std, kinds=['py', 'v', 'm2', 'list', 'vlong'])}
+                3: dict(kinds=['py', 'v', 'm2', 'list', 'vlong'], bs=[1, 2, 3], rets=['num', 'vec2'],
+                        kws=['none', 'all'])}
         dts = ['None', 'float', 'int', 'object', 'False']
     else:
         full = ['py', 'pyint', 'a0', 'v', 'vi', 'm2', 'm1', 'list', 'tuple', 'str', 'none', 'vlong', 'v1']
         std = dict(bs=[1, 2, 3, 4], rets=['num', 'int', 'vec2', 'dict', 'ragged', 'str', 'none'],
                    kws=['none', 'meta', 'rs', 'extra', 'all'])
         plan = {0: dict(std, kinds=['py']), 1: dict(std, kinds=full), 2: dict(std, kinds=full, bs=[1, 2, 3]),
-                3: dict(kinds=['py', 'a0', 'v', 'vi', 'm2', 'list', 'vlong'], bs=[1, 2, 3],
+                3: dict(kinds=['py', 'a0', 'v', 'm2', 'list', 'str', 'vlong'], bs=[1, 2, 3],
                         rets=['num', 'vec2', 'ragged'], kws=['none', 'meta', 'all']),
                 4: dict(kinds=['py', 'v', 'm2', 'vlong'], bs=[1, 2], rets=['num', 'vec2'], kws=['none', 'all'])}
         dts = ['None', 'float', 'int', 'object', 'False', 'float32', 'str']
